@@ -54,6 +54,7 @@ C20Clause(full, ev) ==
            ELSE IF Len(ev.disk) < Len(ev.completed) + 1 THEN "C20:registered-row-lost"
            ELSE IF ~PrefixMatch(ev.disk, <<Cfg.header>> \o ev.all) THEN "C20:not-a-prefix"
            ELSE "ok"
+      [] ev.e = "sessionfail" -> "C20:recorder-raises"      \* building a recorder / registering an individual raised
       [] OTHER -> "C20:unknown-event"
 
 C20Attrs(full, ev) ==
